@@ -69,6 +69,12 @@ ASSUMPTIONS = [
     'value lengths are chosen so that a granted multi-attribute response fits ATT_MTU without '
     'truncation (truncation format is property C10)',
     'a response PDU to a Write Command is not judged here (C10); only the value and disclosure are',
+    'known finding F11a (the server never looks at READABLE/WRITEABLE; Bumble\'s own profiles and tests rely '
+    'on it): cells whose only reason for refusal is the missing READABLE bit, or the missing WRITEABLE bit '
+    'while a write requirement bit is set and met, are not run; they are counted under '
+    'excluded_by_known_finding (a few are run when known_findings.json lists the signature, to print the '
+    'KNOWN-FINDING line). Writes to attributes with no write permission bit at all (declarations, '
+    'read-only values) are judged',
 ]
 SHRINK_KEYS = ('cells',)
 
@@ -889,7 +895,7 @@ def run_program(ctx, params, steps, confirm=True) -> None:
                     g = {'fixed': got['fixed'] if c[4] == 'fixed' else [], 'eatt': got['eatt'] if c[4] == 'eatt' else [],
                          'all': got['all']}
                     verdicts += judge(env, c, pl, g, after, [])
-                case = {'kind': 'program', 'world': params, 'cells': [step]}
+                case = {'kind': 'program', 'world': _non_default(params), 'cells': [step]}
                 for sig, what in verdicts:
                     ctx.fail(sig, what, case)
                 ctx.case(['pair', cell, second[3]], nontrivial, labels,
@@ -915,10 +921,15 @@ def run_program(ctx, params, steps, confirm=True) -> None:
 _confirmed: dict = {}
 
 
+def _non_default(params) -> dict:
+    """World parameters that differ from DEFAULT_WORLD (replay fills in the rest)."""
+    return {k: v for k, v in params.items() if DEFAULT_WORLD.get(k) != v}
+
+
 def report(ctx, sig, what, params, cell, steps, confirm) -> None:
     """Records a failure with a self-contained case: the cell alone in the smallest world where the
     same signature reproduces (minimal world, else this world), else the whole program so far."""
-    own = {'kind': 'program', 'world': params, 'cells': [cell]}
+    own = {'kind': 'program', 'world': _non_default(params), 'cells': [cell]}
     if not confirm or ctx.replaying or _confirmed.get(sig, 0) >= 2:
         ctx.fail(sig, what, own)
         return
@@ -929,11 +940,11 @@ def report(ctx, sig, what, params, cell, steps, confirm) -> None:
         probe = _Probe()
         run_program(probe, candidate, [cell], confirm=False)
         if sig in probe.failures:
-            ctx.fail(sig, probe.failures[sig][0], {'kind': 'program', 'world': candidate, 'cells': [cell]})
+            ctx.fail(sig, probe.failures[sig][0], {'kind': 'program', 'world': _non_default(candidate), 'cells': [cell]})
             return
     k = steps.index(cell) if cell in steps else len(steps) - 1
     ctx.fail(sig + '/history_dependent', what + ' (only after the preceding cells of the program)',
-             {'kind': 'program', 'world': params, 'cells': steps[: k + 1]})
+             {'kind': 'program', 'world': _non_default(params), 'cells': steps[: k + 1]})
 
 
 # ---------------------------------------------------------------------------
